@@ -192,6 +192,15 @@ def decode_arith(ctx, R, rule='B.C18.arith'):
             continue
         fns += 1
         seen = {}
+        from .. import rt
+        prev = rt.OVERFLOW_ON[0]
+        rt.OVERFLOW_ON[0] = True
+        try:
+            # the auto rules of the audio-path analysis apply here too: a constant index below a constant length, the index of a
+            # range / enumeration over the very slice indexed, `index + 1` of such an index
+            asserts = [(i, t) for i, t in asserts if not rt.auto_assert(b, t)]
+        finally:
+            rt.OVERFLOW_ON[0] = prev
         for i, t in asserts:
             kind = str(t.get('msg') or t.get('kind') or 'assert').split('(')[0]
             seen[kind] = seen.get(kind, 0) + 1
